@@ -536,6 +536,7 @@ func runC03(c *Ctx) {
 	c03LoopEarlySuccess(c)
 	c04NormaliseTotal(c)
 	c04NilOutSameSide(c)
+	c03SubsetByPair(c, "SUBSET-BY-PAIR")
 }
 
 // enclosingStmtList returns the innermost block/clause that contains n.
